@@ -113,5 +113,10 @@ func B1(x byte) string { return string([]byte{x}) }
 // U16 is the two-byte big-endian string of x.
 func U16(x uint16) string { return string([]byte{byte(x >> 8), byte(x)}) }
 
+// Chunk is the i-th block of size bytes of s counted from offset at.
+//
+//@ spec rec
+func Chunk(s string, at, size, i int) string { return s[at+size*i : at+size*i+size] }
+
 // Zeros is the string of n zero bytes.
 func Zeros(n int) string { return string(make([]byte, n)) }
